@@ -141,10 +141,23 @@ def coq_audit(files=None):
 
 
 def strip_comments(src):
+    """remove Coq comments and blank out the contents of string literals"""
     out = []
     depth = 0
     i = 0
     while i < len(src):
+        if depth == 0 and src[i] == '"':
+            j = i + 1
+            while j < len(src):
+                if src[j] == '"':
+                    if j + 1 < len(src) and src[j + 1] == '"':
+                        j += 2
+                        continue
+                    break
+                j += 1
+            out.append('""' + '\n' * src[i:j].count('\n'))
+            i = j + 1
+            continue
         if src.startswith('(*', i):
             depth += 1
             i += 2
